@@ -179,7 +179,14 @@ def r2(ctx):
         g = backslice(b, [G.args[0]])
         named = {b.local_name(l) for l in a.locals & g.locals if b.local_name(l)}
         okd = any(b.dominates(x, G.bb) for x in ([ft] if br is not None else [])) if guards else True
-        ctx.check(bool(named), rule, P + '|same-files', G.where(), 'was_modified examines the vector that is grouped afterwards (%s)' % ','.join(sorted(named)), 'the checked files are not the grouped files')
+        # ... and not a narrowed version of it: every selecting / splitting step behind the checked vector is also behind the grouped one
+        NARROW = r'Iterator::(filter|filter_map|take|skip|take_while|skip_while|step_by|partition)$|::(retain|retain_mut|drain|split_off|truncate|remove|swap_remove|pop|split_at|split_first|split_last)$'
+        na = {(c.bb, c.path.rsplit('::', 1)[-1]) for c in a.calls if c.matches(NARROW)}
+        ng = {(c.bb, c.path.rsplit('::', 1)[-1]) for c in g.calls if c.matches(NARROW)}
+        only = sorted(na - ng)
+        ctx.check(bool(named) and not only, rule, P + '|same-files', (W.where() if only else G.where()), 'was_modified examines the vector that is grouped afterwards (%s), not a selection of it' % ','.join(sorted(named)),
+                  ('the vector given to was_modified is a selection of the group (%s at bb%d is behind it but not behind the grouped vector): a member that is left out - the retained file, which has to carry '
+                   'the content of the dropped ones - can have been rewritten since the report without the group being skipped' % (only[0][1], only[0][0])) if only else 'the checked files are not the grouped files')
         ctx.check(W.bb in b.dominators()[G.bb] or bool(guards), rule, P + '|check-before-grouping', G.where(), 'the check precedes the grouping', 'grouping happens before the staleness check')
 
 
